@@ -139,6 +139,28 @@ CHECKS = {
         "(float64), 5e-6 (float32), widened by 2e-10/|b1| where the dispatch may legitimately pick the optimised path.",
         "4/C04",
     ),
+    "C12": (
+        "Hypothesis-generated builder programs (call order/subset, byte order, pixel count vs chunk size, targets) "
+        "decoded by an independent SQW v4 decoder; metamorphic permutation of the calls",
+        "Model-based generated-input search: every produced file is decoded byte by byte by an independent decoder "
+        "written from the format document: header, BAT size, unique names, expected block set/types, extents start at "
+        "the BAT end, are contiguous and end at EOF, each block decodes in exactly its declared size; re-open byte "
+        "order and data_block_names; the same calls in another order give the same BAT order and sizes.",
+        "Trusted: vf/ref/sqw.py (self-tested on hand-assembled bytes), the format document. Strings are ASCII; DND "
+        "metadata always has the 4 axes of the format.",
+        "4/C12",
+    ),
+    "C13": (
+        "same generated builder programs; independent decoder vs expectations computed from the inputs "
+        "(bit-exact float32 pixels), then differential against the package's own reader with unit-dimension check",
+        "Generated-input search with a decode-and-compare oracle: all N pixels in order as float32(value in row unit) "
+        "bit for bit (1 ulp when a unit conversion applies), pixel metadata, one experiment record per run (1-based id, "
+        "meV, rad), shared instrument/sample containers, DND metadata and zero histogram; Sqw.read_data_block for every "
+        "block returns the same numbers/strings/shapes with units convertible to the written ones.",
+        "Trusted: vf/ref/sqw.py, exact decimal unit factors. A one-element array and a scalar are identified (the format "
+        "cannot distinguish them).",
+        "4/C13",
+    ),
 }
 
 NOT_YET = "check not built yet (work in progress; every property is planned to be claimed, see DESIGN.md section 4)"
